@@ -1377,9 +1377,22 @@ func ruleC19_6(c *Ctx, r *Rep) {
 				if !isB || bi.Name() != "delete" || len(call.Call.Args) != 2 || !isPushers(call.Call.Args[0]) {
 					continue
 				}
+				// (the forgetting may be a private helper's job, `s.forget(subID)`: the key and the branch are then
+				// those of the helper's single call site)
+				keyV, condBlock := strip(call.Call.Args[1]), b
+				if p, isP := keyV.(*ssa.Parameter); isP {
+					if a := uniqueCallerArg(p); a != nil {
+						keyV = strip(a)
+						for _, ci := range c.callersOf(p.Parent()) {
+							if !c.FnInControl(ci.Parent()) {
+								condBlock = ci.Block()
+							}
+						}
+					}
+				}
 				// key = the range key of a loop over the same map
 				ownKey := false
-				if ex, isE := strip(call.Call.Args[1]).(*ssa.Extract); isE && ex.Index == 1 {
+				if ex, isE := keyV.(*ssa.Extract); isE && ex.Index == 1 {
 					if nx, isN := ex.Tuple.(*ssa.Next); isN {
 						if rg, isR := nx.Iter.(*ssa.Range); isR && isPushers(rg.X) {
 							ownKey = true
@@ -1388,7 +1401,7 @@ func ruleC19_6(c *Ctx, r *Rep) {
 				}
 				// in the branch taken when the monitor's Done channel is ready
 				onDone := false
-				for _, cd := range edgeConds(b) {
+				for _, cd := range edgeConds(condBlock) {
 					if bo, isBo := cd.V.(*ssa.BinOp); isBo && cd.Pol && bo.Op == token.EQL {
 						if ex, isE := bo.X.(*ssa.Extract); isE {
 							if sel, isS := ex.Tuple.(*ssa.Select); isS && ex.Index == 0 {
